@@ -156,7 +156,7 @@ pub open spec fn prefix_reloaded(arr: Seq<serde_json::Value>, n: int, m: Map<Vec
 }
 /// no anchor in the loop bodies: this lemma fires on the loop invariant and on the postconditions of load_user_from_json and of the add_* mutators
 broadcast proof fn lemma_prefix_reloaded_step(arr: Seq<serde_json::Value>, n: int, old_m: Map<Vec<u8>, Vec<User>>, new_m: Map<Vec<u8>, Vec<User>>, user: User)
-    requires #[trigger] users_appended(old_m, new_m, user), #[trigger] prefix_reloaded(arr, n, old_m), #[trigger] reloaded_user(arr[n], user),
+    requires #[trigger] users_appended(old_m, new_m, user), #[trigger] prefix_reloaded(arr, n, old_m), reloaded_user(arr[n], user),
     ensures prefix_reloaded(arr, n + 1, new_m),
 {
     lemma_users_append_lists(old_m, new_m, user);
@@ -423,38 +423,125 @@ pub closed spec fn room_wf(r: Room) -> bool {
     users_wf(r.admins@) && forall|id: Uid| #[trigger] r.authorisations@.contains_key(id) ==> auth_wf(r.authorisations@[id])
 }
 
+
+// ---- import path: every entry row of a received definition is in the parsed group / room (same anchor-free scheme as the reload path)
+pub open spec fn user_node_imported(n: UserNode, m: Map<Vec<u8>, Vec<User>>) -> bool {
+    exists|u: User| user_of_row(u, n.node.mdate, opt_json(n.node._json)) && listed_user(m, u)
+}
+pub open spec fn right_node_imported(n: EntityRightNode, m: Map<String, Vec<EntityRight>>) -> bool {
+    exists|e: EntityRight| right_of_row(e, n.node.mdate, opt_json(n.node._json)) && listed_right(m, e)
+}
+pub open spec fn user_nodes_imported(nodes: Seq<UserNode>, n: int, m: Map<Vec<u8>, Vec<User>>) -> bool { forall|i: int| 0 <= i < n ==> #[trigger] user_node_imported(nodes[i], m) }
+pub open spec fn right_nodes_imported(nodes: Seq<EntityRightNode>, n: int, m: Map<String, Vec<EntityRight>>) -> bool { forall|i: int| 0 <= i < n ==> #[trigger] right_node_imported(nodes[i], m) }
+broadcast proof fn lemma_user_nodes_imported_step(nodes: Seq<UserNode>, n: int, old_m: Map<Vec<u8>, Vec<User>>, new_m: Map<Vec<u8>, Vec<User>>, user: User)
+    requires #[trigger] users_appended(old_m, new_m, user), #[trigger] user_nodes_imported(nodes, n, old_m), user_of_row(user, nodes[n].node.mdate, opt_json(nodes[n].node._json)),
+    ensures user_nodes_imported(nodes, n + 1, new_m),
+{
+    lemma_users_append_lists(old_m, new_m, user);
+    assert forall|i: int| 0 <= i < n + 1 implies #[trigger] user_node_imported(nodes[i], new_m) by {
+        if i < n {
+            assert(user_node_imported(nodes[i], old_m));
+            let u = choose|u: User| user_of_row(u, nodes[i].node.mdate, opt_json(nodes[i].node._json)) && listed_user(old_m, u);
+            assert(listed_user(new_m, u));
+        }
+    }
+}
+broadcast proof fn lemma_right_nodes_imported_step(nodes: Seq<EntityRightNode>, n: int, old_m: Map<String, Vec<EntityRight>>, new_m: Map<String, Vec<EntityRight>>, right: EntityRight)
+    requires #[trigger] rights_appended(old_m, new_m, right), #[trigger] right_nodes_imported(nodes, n, old_m), right_of_row(right, nodes[n].node.mdate, opt_json(nodes[n].node._json)),
+    ensures right_nodes_imported(nodes, n + 1, new_m),
+{
+    lemma_rights_append_lists(old_m, new_m, right);
+    assert forall|i: int| 0 <= i < n + 1 implies #[trigger] right_node_imported(nodes[i], new_m) by {
+        if i < n {
+            assert(right_node_imported(nodes[i], old_m));
+            let e = choose|e: EntityRight| right_of_row(e, nodes[i].node.mdate, opt_json(nodes[i].node._json)) && listed_right(old_m, e);
+            assert(listed_right(new_m, e));
+        }
+    }
+}
 //@ extract src/database/room_node.rs :: impl AuthorisationNode / fn parse
 //@ result r
 //@ attr #[verifier::loop_isolation(false)]
 //@ rewrite E3 "\.\.Default::default\(\)" => "..Authorisation::default()" x1
 //@ insert body-start
-    broadcast use {lemma_users_append_wf, lemma_rights_append_wf};   // the representation invariant follows every add_* call, whatever the code around the call looks like
+    broadcast use {lemma_users_append_wf, lemma_rights_append_wf, lemma_user_nodes_imported_step, lemma_right_nodes_imported_step};   // the representation invariant follows every add_* call, whatever the code around the call looks like
 //@ loop "for right_node in &self.right_nodes" iter it
             invariant auth_wf(authorisation), authorisation.id == self.node.id,
+                it.seq().len() == self.right_nodes@.len(), forall|i: int| 0 <= i < it.seq().len() ==> *(#[trigger] it.seq()[i]) == self.right_nodes@[i],
+                // [every_right_row_is_imported]{C10,C07}
+                right_nodes_imported(self.right_nodes@, it.index@ as int, authorisation.rights@),
 //@ loop "for user_node in &self.user_nodes" iter it
-            invariant auth_wf(authorisation), authorisation.id == self.node.id,
+            invariant auth_wf(authorisation), authorisation.id == self.node.id, authorisation.rights == rights1,
+                it.seq().len() == self.user_nodes@.len(), forall|i: int| 0 <= i < it.seq().len() ==> *(#[trigger] it.seq()[i]) == self.user_nodes@[i],
+                // [every_user_row_is_imported]{C10,C07}
+                user_nodes_imported(self.user_nodes@, it.index@ as int, authorisation.users@),
 //@ loop "for user in &self.user_admin_nodes" iter it
-            invariant auth_wf(authorisation), authorisation.id == self.node.id,
+            invariant auth_wf(authorisation), authorisation.id == self.node.id, authorisation.rights == rights1, authorisation.users == users2,
+                it.seq().len() == self.user_admin_nodes@.len(), forall|i: int| 0 <= i < it.seq().len() ==> *(#[trigger] it.seq()[i]) == self.user_admin_nodes@[i],
+                // [every_user_admin_row_is_imported]{C10,C07}
+                user_nodes_imported(self.user_admin_nodes@, it.index@ as int, authorisation.user_admins@),
+//@ insert before-stmt "for user_node in &self.user_nodes"
+        let ghost rights1 = authorisation.rights;
+//@ insert before-stmt "for user in &self.user_admin_nodes"
+        let ghost users2 = authorisation.users;
 //@ spec
         ensures
             // [imported_group_well_formed]{C10} a group imported from a peer's definition satisfies the same representation invariant as one built live or reloaded: entries are fed to the same add_* mutators in list order, their refusal is propagated
             r is Ok ==> auth_wf(r->Ok_0) && r->Ok_0.id == self.node.id,
+            // [every_entry_row_of_a_received_group_is_in_the_parsed_group]{C10,C07} every right, user and user-admin row of the received group is in the parsed group, under its entity / key, as the row decoder reads it: none is skipped, none lands in another list
+            r is Ok ==> right_nodes_imported(self.right_nodes@, self.right_nodes@.len() as int, r->Ok_0.rights@)
+                && user_nodes_imported(self.user_nodes@, self.user_nodes@.len() as int, r->Ok_0.users@)
+                && user_nodes_imported(self.user_admin_nodes@, self.user_admin_nodes@.len() as int, r->Ok_0.user_admins@),
 //@ end
 
+
+/// the received group `n` is in the room's table under its id, with every one of its entry rows
+pub open spec fn group_imported(n: AuthorisationNode, m: Map<Uid, Authorisation>) -> bool {
+    m.contains_key(n.node.id)
+    && right_nodes_imported(n.right_nodes@, n.right_nodes@.len() as int, m[n.node.id].rights@)
+    && user_nodes_imported(n.user_nodes@, n.user_nodes@.len() as int, m[n.node.id].users@)
+    && user_nodes_imported(n.user_admin_nodes@, n.user_admin_nodes@.len() as int, m[n.node.id].user_admins@)
+}
+pub open spec fn groups_imported(nodes: Seq<AuthorisationNode>, n: int, m: Map<Uid, Authorisation>) -> bool { forall|i: int| 0 <= i < n ==> #[trigger] group_imported(nodes[i], m) }
+broadcast proof fn lemma_groups_imported_step(nodes: Seq<AuthorisationNode>, n: int, old_m: Map<Uid, Authorisation>, a: Authorisation)
+    requires
+        #[trigger] groups_imported(nodes, n, old_m), !old_m.contains_key(a.id), a.id == nodes[n].node.id,
+        right_nodes_imported(nodes[n].right_nodes@, nodes[n].right_nodes@.len() as int, a.rights@),
+        user_nodes_imported(nodes[n].user_nodes@, nodes[n].user_nodes@.len() as int, a.users@),
+        user_nodes_imported(nodes[n].user_admin_nodes@, nodes[n].user_admin_nodes@.len() as int, a.user_admins@),
+    ensures groups_imported(nodes, n + 1, #[trigger] old_m.insert(a.id, a)),
+{
+    let new_m = old_m.insert(a.id, a);
+    assert forall|i: int| 0 <= i < n + 1 implies #[trigger] group_imported(nodes[i], new_m) by {
+        if i < n { assert(group_imported(nodes[i], old_m)); assert(nodes[i].node.id != a.id); assert(new_m[nodes[i].node.id] == old_m[nodes[i].node.id]); }
+        else { assert(new_m[a.id] == a); }
+    }
+}
 //@ extract src/database/room_node.rs :: impl RoomNode / fn parse
 //@ result r
 //@ attr #[verifier::loop_isolation(false)]
 //@ rewrite E3 "\.\.Default::default\(\)" => "..Room::default()" x1
 //@ insert body-start
-    broadcast use {lemma_users_append_wf, lemma_rights_append_wf};   // the representation invariant follows every add_* call, whatever the code around the call looks like
+    broadcast use {lemma_users_append_wf, lemma_rights_append_wf, lemma_user_nodes_imported_step, lemma_groups_imported_step};   // the representation invariant follows every add_* call, whatever the code around the call looks like
 //@ loop "for user in &self.admin_nodes" iter it
             invariant users_wf(room.admins@), room.id == self.node.id, room.authorisations@ == Map::<Uid, Authorisation>::empty(),
+                it.seq().len() == self.admin_nodes@.len(), forall|i: int| 0 <= i < it.seq().len() ==> *(#[trigger] it.seq()[i]) == self.admin_nodes@[i],
+                // [every_admin_row_is_imported]{C10,C07}
+                user_nodes_imported(self.admin_nodes@, it.index@ as int, room.admins@),
 //@ loop "for auth in &self.auth_nodes" iter it
-            invariant room_wf(room), room.id == self.node.id,
+            invariant room_wf(room), room.id == self.node.id, room.admins == admins1,
+                it.seq().len() == self.auth_nodes@.len(), forall|i: int| 0 <= i < it.seq().len() ==> *(#[trigger] it.seq()[i]) == self.auth_nodes@[i],
+                // [every_group_is_imported]{C10,C07}
+                groups_imported(self.auth_nodes@, it.index@ as int, room.authorisations@),
+//@ insert before-stmt "for auth in &self.auth_nodes"
+        let ghost admins1 = room.admins;
 //@ spec
         ensures
             // [imported_room_well_formed]{C10}
             r is Ok ==> room_wf(r->Ok_0) && r->Ok_0.id == self.node.id,
+            // [every_entry_row_of_a_received_room_is_in_the_parsed_room]{C10,C07} every admin row is in the parsed room's admin history and every group, with every one of its entry rows, is in its table under the group's id
+            r is Ok ==> user_nodes_imported(self.admin_nodes@, self.admin_nodes@.len() as int, r->Ok_0.admins@)
+                && groups_imported(self.auth_nodes@, self.auth_nodes@.len() as int, r->Ok_0.authorisations@),
 //@ end
 
 //@ obligation L_live_and_import_decode_alike props C10 : the live decoder and the importer, applied to the same stored row and date, produce rights (user entries) with the same date, entity (key), flags: the decisions that depend on them are the same
